@@ -942,6 +942,33 @@ func ruleR37(c *Ctx) {
 		}
 		c.Check(ms.Cap == "0", ms.Func, ms.Call, "tracer inbound channel is unbuffered", "Send hands the trace to the broadcaster synchronously (capacity 0): with a buffer a sender can call Done() while its last traces are still queued, the termination message then races them and they are dropped", "capacity class: "+ms.Cap)
 	}
+	// (8b) request channels (element type carries its own acknowledgement channel) are rendezvous channels too:
+	// Unsubscribe re-offers its request until the acknowledgement arrives, so a buffered request channel keeps a
+	// stale duplicate that later removes a fresh subscription of the same channel and then blocks the broadcaster
+	// on an acknowledgement nobody reads
+	for _, ms := range ce.Makes {
+		if ms.Dest == nil || !ms.Dest.IsField() || shortPkg(ms.Func.Pkg.PkgPath) != "pkg/tracing" {
+			continue
+		}
+		ct, ok := ms.Dest.Type().Underlying().(*types.Chan)
+		if !ok {
+			continue
+		}
+		est, ok := ct.Elem().Underlying().(*types.Struct)
+		if !ok {
+			continue
+		}
+		hasAck := false
+		for i := 0; i < est.NumFields(); i++ {
+			if _, isCh := est.Field(i).Type().Underlying().(*types.Chan); isCh {
+				hasAck = true
+			}
+		}
+		if !hasAck {
+			continue
+		}
+		c.Check(ms.Cap == "0", ms.Func, ms.Call, "tracer request channel "+ms.Dest.Name()+" is unbuffered", "a subscribe/unsubscribe request is handed to the broadcaster by rendezvous: the requester offers it again until it is acknowledged, which is only sound when an offer that was not taken leaves nothing behind", "capacity class: "+ms.Cap)
+	}
 	// (9) the termination message is taken only by the broadcaster
 	for _, op := range ce.Ops {
 		if op.Kind == OpRecv && op.Ref.Field == "tracer.terminate" {
